@@ -22,6 +22,7 @@ import AdaptaVerif.Lemmas.PlanariseSweep
 import AdaptaVerif.Lemmas.PlanariseGood
 import AdaptaVerif.Lemmas.PlanariseConnSweep
 import AdaptaVerif.Lemmas.PlanariseNoCrossSweep
+import AdaptaVerif.Lemmas.PlanarisePipeline
 namespace AdaptaVerif.Props.C19Planarise
 open AdaptaVerif.Model.Planarise AdaptaVerif.Lemmas.Planarise AdaptaVerif.Check.Planarise
 
@@ -231,7 +232,77 @@ theorem planarise_pieces_within (S : List Seg) (nextId : Nat) (hG : Good S) :
 example : PiecesCross (mkSeg ⟨0, ⟨0, 0⟩⟩ ⟨1, ⟨30, 0⟩⟩) (mkSeg ⟨6, ⟨10, -5⟩⟩ ⟨7, ⟨10, 25⟩⟩) := by
   unfold PiecesCross; decide +kernel
 
-/-! ### (6) closed witnesses -/
+
+/-! ### (6) the whole `planarise`, from the route segments on
+
+`segsAOf inp` = the segments `buildSegments` makes from the routes after `buildUniqueBendPoints` (node centre to bend
+node to … to node centre); `segsBOf inp` = the segments of the overlap-free graph handed to the sweep.
+Hypothesis `GoodA (segsAOf inp)` (decidable form `goodAB`, evaluated by the driver): every route segment is axis-parallel
+of positive length, end coordinates equal or more than 1 apart, and a node is identified by its position and by its id.
+Collinear route segments MAY overlap, nest or abut — that is what `removeEdgeOverlaps` is for. -/
+
+/-- `removeEdgeOverlaps` delivers what the sweep needs: the overlap-free graph is axis-parallel, separated and
+overlap-free, for every input whose route segments satisfy `GoodA`. -/
+theorem overlap_removal_good (inp : Input) (hA : GoodA (segsAOf inp)) : Good (segsBOf inp) := pipeline_good hA
+
+/-- **Crossings of the whole pipeline**: the crossing nodes of `planarise inp` lie exactly at the points where a
+horizontal and a vertical edge of the overlap-free graph satisfy the sweep condition. -/
+theorem planarise_crossings (inp : Input) (hA : GoodA (segsAOf inp)) (p : Pt) :
+    p ∈ (planarise inp).crossNodes.map (·.p) ↔
+      ∃ h ∈ segsBOf inp, ∃ v ∈ segsBOf inp, SweepCross h v ∧ p = ⟨v.cc, h.cc⟩ := by
+  obtain ⟨_, h2, _⟩ := planarise_segs inp
+  rw [h2, List.map_reverse, List.mem_reverse]
+  have hG := pipeline_good hA
+  constructor
+  · intro hp
+    obtain ⟨c, hc, rfl⟩ := List.mem_map.1 hp
+    exact crossings_sound _ _ hG c hc
+  · rintro ⟨h, hh, v, hv, hs, rfl⟩
+    obtain ⟨c, hc, hcp⟩ := crossings_complete _ _ hG h hh v hv hs
+    exact List.mem_map.2 ⟨c, hc, hcp⟩
+
+/-- **No two edges of `planarise inp` cross.** -/
+theorem planarise_no_crossing (inp : Input) (hA : GoodA (segsAOf inp)) :
+    ∀ p ∈ (planarise inp).segs, ∀ q ∈ (planarise inp).segs, ¬ PiecesCross p q := by
+  rw [(planarise_segs inp).1]
+  exact no_pieces_cross (pipeline_good hA) _
+
+/-- **Every route segment of every edge is still connected end to end in `planarise inp`**, by a chain of planar-graph
+edges whose intermediate nodes are crossing nodes or ends of route segments lying strictly inside this segment (on its
+line, strictly between its ends).  Together with `planarise_preserves_nodes`, and since consecutive route segments of an
+edge share their bend node, this is the clause "every original node is still present and still connected to its former
+neighbours through chains of new nodes" — the intermediate segment ends are bend nodes, not original nodes, exactly when
+no route passes through the centre of a third node (`separatedB` checks that on the input). -/
+theorem planarise_preserves_connections (inp : Input) (hA : GoodA (segsAOf inp)) :
+    ∀ s ∈ segsAOf inp, ∃ mids : List Node,
+      (∀ m ∈ mids, m ∈ (planarise inp).crossNodes ∨
+        ((∃ t ∈ segsAOf inp, m = t.on ∨ m = t.cn) ∧ ccOf s.ori m = s.cc ∧
+          vcOf s.ori s.on < vcOf s.ori m ∧ vcOf s.ori m < vcOf s.ori s.cn)) ∧
+      Linked (planarise inp).segs (s.on :: mids ++ [s.cn]) := by
+  intro s hs
+  obtain ⟨inner, hin, hr⟩ := pipeline_connections hA s hs
+  obtain ⟨mids, h1, h2⟩ := linked_of_reach hr
+  refine ⟨mids, ?_, h2⟩
+  intro m hm
+  rcases List.mem_append.1 (h1 m hm) with h | h
+  · exact Or.inl h
+  · exact Or.inr (hin m h)
+
+/-- the executable test the driver applies to the route segments is sound for `GoodA` -/
+theorem goodAB_sound (S : List Seg) (h : goodAB S = true) : GoodA S := AdaptaVerif.Lemmas.Planarise.goodAB_sound h
+
+/-- two edges sharing the horizontal line y = 0 (routes overlap on [20, 40]) and a vertical edge crossing the overlap -/
+def overlapInput : Input :=
+  { nodes := [⟨0, ⟨0, 0⟩⟩, ⟨1, ⟨40, 0⟩⟩, ⟨2, ⟨20, 0⟩⟩, ⟨3, ⟨60, 0⟩⟩, ⟨4, ⟨30, -20⟩⟩, ⟨5, ⟨30, 20⟩⟩],
+    edges := [⟨⟨0, ⟨0, 0⟩⟩, ⟨1, ⟨40, 0⟩⟩, [⟨0, 0⟩, ⟨40, 0⟩]⟩, ⟨⟨2, ⟨20, 0⟩⟩, ⟨3, ⟨60, 0⟩⟩, [⟨20, 0⟩, ⟨60, 0⟩]⟩,
+              ⟨⟨4, ⟨30, -20⟩⟩, ⟨5, ⟨30, 20⟩⟩, [⟨30, -20⟩, ⟨30, 20⟩]⟩] }
+
+/-- non-vacuity: overlapping routes satisfy the hypothesis (overlaps are allowed in `GoodA`), and the one crossing of
+the vertical edge with the merged line is found -/
+example : GoodA (segsAOf overlapInput) := goodAB_sound _ (by decide +kernel)
+example : (planarise overlapInput).crossNodes.map (·.p) = [⟨30, 0⟩] := by decide +kernel
+
+/-! ### (7) closed witnesses -/
 
 /-- edge A→B routed (0,0) (20,0) (20,d) (60,d) (60,40) — a vertical jog of length `d` at x = 20 — and the
 straight horizontal edge C→D at y = 20 (replay: harness `--mode shortseg` for d = 1/2) -/
